@@ -287,7 +287,8 @@ impl<'a> TyVisitor for V<'a> {
             _ => {
                 // log with plain base
                 let base = if case.s2 % 3 == 0 { 0.05 + 0.75 * case.u2 } else { 1.2 + 18.8 * case.u2 };
-                let base = round_to::<T::F>(base);
+                // one case in eight: the base is bit-equal to the real part of the operand (log_b(b) = 1)
+                let base = if case.s2 % 8 == 5 && x0r > 0.0 && x0r != 1.0 && x0r.is_finite() { x0r } else { round_to::<T::F>(base) };
                 (x.log(<T::F as Flt>::from64(base)), xj.log(base))
             }
         };
